@@ -213,7 +213,10 @@ func (s *FileStorage) Lock(ctx context.Context, name string) error {
 		if err == nil {
 			err2 := json.NewDecoder(f).Decode(&meta)
 			f.Close()
-			if errors.Is(err2, io.EOF) {
+			if err2 != nil {
+				// the lockfile is empty (io.EOF) or its contents cannot be decoded (cut-off
+				// or corrupt JSON); either way there is no timestamp to go by
+				meta = lockMeta{}
 				emptyCount++
 				if emptyCount < 8 || lockfileRecentlyModified(filename) {
 					// wait for brief time and retry; could be that the file is in the process
@@ -231,11 +234,11 @@ func (s *FileStorage) Lock(ctx context.Context, name string) error {
 					// lockfile is empty or truncated multiple times; I *think* we can assume
 					// the previous acquirer either crashed or had some sort of failure that
 					// caused them to be unable to fully acquire or retain the lock, therefore
-					// we should treat it as if the lockfile did not exist
-					log.Printf("[INFO][%s] %s: Empty lockfile (%v) - likely previous process crashed or storage medium failure; treating as stale", s, filename, err2)
+					// we should treat it as if the lockfile did not exist (returning an error
+					// for undecodable contents instead would leave the lock unobtainable for
+					// good after a crash in the middle of a write)
+					log.Printf("[INFO][%s] %s: Empty or undecodable lockfile (%v) - likely previous process crashed or storage medium failure; treating as stale", s, filename, err2)
 				}
-			} else if err2 != nil {
-				return fmt.Errorf("decoding lockfile contents: %w", err2)
 			} else {
 				// the lockfile has content again, so its writer is alive; only
 				// consecutive empty reads suggest a crashed writer (otherwise a
